@@ -316,6 +316,13 @@ class Check(PropertyCheck):
                 [("send", "unicast", 0x1000, False, False), ("reply", 0), ("confirm", 0, 1, 1), ("confirm", 0, 1, 2),
                  ("confirm", "foreign", 1, 0), ("timer",)],
                 [("send", "unicast", 0x1000, False, False), ("reply", 0), ("confirm", 0, 1, 0), ("confirm", 0, 1, 0)],
+                # two unicasts in flight to the SAME destination: the failed confirmation of one says nothing about the other
+                [("send", "unicast", 0x1000, False, False), ("send", "unicast", 0x1000, False, False), ("reply", 0), ("reply", 0),
+                 ("confirm", 0, 0, 0), ("confirm", 1, 1, 0)],
+                [("send", "unicast", 0x1000, False, False), ("send", "unicast", 0x1000, False, False), ("reply", 0), ("reply", 0),
+                 ("confirm", 1, 0, 0), ("confirm", 0, 1, 0)],
+                [("send", "unicast", 0x1000, False, False), ("send", "unicast", 0x1000, False, False), ("reply", 0), ("reply", 0),
+                 ("confirm", 0, 0, 0), ("timer",), ("timer",)],
                 [("send", "unicast", 0x1000, False, False), ("reply", 0), ("confirm", 0, 1, 4), ("confirm", 0, 0, 0)],
                 [("send", "unicast", 0x1000, False, False), ("reply", 0), ("confirm", 0, 1, 5), ("timer",)],
                 [("send", "unicast", 0x1000, False, False), ("send", "unicast", 0x1001, False, False), ("reply", 0), ("reply", 0),
@@ -490,6 +497,9 @@ class Check(PropertyCheck):
                         # request was in progress: success returns normally, failure raises a delivery error -- never a timeout
                         _, dst0, tag0 = sendcmd[rid]
                         mine = [c for c in all_confirms if c[0] >= created.get(rid, 0) and c[0] <= idx and c[1] == dst0 and c[2] == tag0]
+                        if res == 1 and not any(c[3] == 0 for c in mine):
+                            return (f"unicast {rid} was accepted by the NCP and ended with a delivery error although no confirmation for "
+                                    f"its own destination {dst0:#x} and tag {tag0} reported failure")
                         if mine and mine[0][3] == 1:
                             return (f"unicast {rid} was accepted and its confirmation (destination {dst0:#x}, tag {tag0}) reported success, "
                                     f"but the call ended with {'a timeout' if res == 2 else 'a delivery error'}")
